@@ -82,13 +82,15 @@ def catalogue():
                                                  "realization_filters": [{"method": "sort-objective", "options": {"sort": [0], "first": 1, "last": 2}}]})])
     add("stddev", {"R": 4, "nobj": 2}, [("optimizer", {**base(4, objectives={"weights": [0.8, 0.2], "function_estimators": [0, 1]}),
                                                        "function_estimators": [{"method": "mean"}, {"method": "stddev"}]})])
-    add("failures_tolerated", {"R": 4, "failcalls": {2: [1], 3: [0, 2]}}, [("optimizer", base(4, realizations={"realization_min_success": 2}))])
+    # (strict: nothing but the threshold can make an evaluation fail in these configurations)
+    add("failures_tolerated", {"R": 4, "failcalls": {2: [1], 3: [0, 2]}}, [("optimizer", base(4, realizations={"realization_min_success": 2}))], strict=True)
     # ... with configured but unreferenced realization filters whose windows the failures leave empty: nobody uses them
     add("failures_tolerated_unused_filters", {"R": 4, "failcalls": {2: [1], 3: [0, 2]}},
-        [("optimizer", {**base(4, realizations={"realization_min_success": 2}),
+        [("optimizer", {**base(4, realizations={"realization_min_success": 2}, objectives={"weights": [1.0], "realization_filters": [1]}),
                         "realization_filters": [{"method": "sort-objective", "options": {"sort": [0], "first": 3, "last": 3}},
-                                                {"method": "sort-objective", "options": {"sort": [0], "first": 2, "last": 3}}]})])
-    add("failure_too_few", {"R": 3, "failcalls": {3: [0, 1]}}, [("optimizer", base(3, realizations={"realization_min_success": 2}))])
+                                                {"method": "sort-objective", "options": {"sort": [0], "first": 0, "last": 1}},
+                                                {"method": "sort-objective", "options": {"sort": [0], "first": 2, "last": 3}}]})], strict=True)
+    add("failure_too_few", {"R": 3, "failcalls": {3: [0, 1]}}, [("optimizer", base(3, realizations={"realization_min_success": 2}))], strict=True)
     add("random_failures", {"R": 5, "randfail": 0.15}, [("optimizer", base(5, realizations={"realization_min_success": 3},
                                                                              gradient={"perturbation_min_success": 2}))])
     add("budget", {"R": 2}, [("optimizer", base(2, optimizer={"max_functions": 3}))])
@@ -155,7 +157,7 @@ def drive(sc):
             kw["transforms"] = make_transforms(**kw["transforms"])
         if "variables" in kw:
             kw["variables"] = np.array(kw["variables"], dtype=np.float64)
-        rec.run_step(plan, step, copy.deepcopy(item[1]), tracked=True, batch=run.get("batch", 1), metadata={"tag": 10 * n, "list": [n]}, **kw)
+        rec.run_step(plan, step, copy.deepcopy(item[1]), tracked=True, batch=run.get("batch", 1), strict=bool(run.get("strict")), metadata={"tag": 10 * n, "list": [n]}, **kw)
     rec.store(plan.get(store, "results"))
     rec.best(plan.get(tracker, "results"))
     trace = rec.finish()
